@@ -2,6 +2,7 @@ package svc
 
 import (
 	"crypto/sha1"
+	"errors"
 	"fmt"
 	"sort"
 	"strings"
@@ -85,6 +86,11 @@ func run(sc *Scenario, path []string, convBin string) (res result) {
 		}
 		nViews := len(w.Views)
 		if err := w.Apply(ev); err != nil {
+			if errors.Is(err, ErrJobStuck) && i == len(path)-1 {
+				res.viol = append(res.viol, V{"C09", "c09.job-never-completes", err.Error()})
+				res.canon = "stuck:" + res.pathDesc
+				return
+			}
 			res.hardErr = fmt.Errorf("applying %q in [%s]: %v", ev, res.pathDesc, err)
 			return
 		}
@@ -119,6 +125,11 @@ func run(sc *Scenario, path []string, convBin string) (res result) {
 			return
 		}
 		if err := w.Step(w.ParkedNames()[0]); err != nil {
+			if errors.Is(err, ErrJobStuck) {
+				res.viol = append(res.viol, V{"C09", "c09.job-never-completes", fmt.Sprintf("while running the jobs dry (after %d steps): %v", res.drained, err)})
+				res.enabled = nil
+				return
+			}
 			res.hardErr = fmt.Errorf("draining after [%s]: %v", res.pathDesc, err)
 			return
 		}
